@@ -80,6 +80,18 @@ CLAIMED['C08'] = dict(
     note='Trusted: z3; floats as reals; Newton solve (stub returns a constant leak rate when a leak row exists); template T7; durations <= 2 hydraulic steps.',
     ref='DESIGN.md section 4, C08')
 
+CLAIMED['C19'] = dict(
+    engine='symx',
+    technique='symbolic execution of the real split_pipe / break_pipe / skeletonize on models with z3-proxy attributes, all feasible paths explored; SMT (z3 LRA/NRA) decides length, position, neutrality, rest-unchanged and demand-conservation identities; discrete structure checked on every explored path',
+    text='split/break: for 4 end-node contexts x both operations x either end x copy/in-place x check valve x closed x polyline, with length, diameter, roughness, minor loss, end elevations, '
+         'end coordinates and split fraction s in [0,1] symbolic: piece lengths are sL and (1-s)L, new junction(s) at fraction s of elevation and of the line/polyline, new pipe same d and C and no '
+         'check valve, zero demand at the new junction, all other elements and (return_copy) the input model unchanged - for ALL values. skeletonize: on a 12-node template with symbolic base demands, '
+         'pattern multipliers, diameters and threshold: total demand conserved at every pattern step, demand at each retained junction equals the sum over the nodes mapped to it, tanks/reservoirs/'
+         'pumps/valves/control-referenced and excluded elements retained, map is a partition, on every feasible path.',
+    note='Trusted: z3; floats as reals; skeletonize initial simulation stubbed (its output is unused); hydraulic neutrality decided through the resistance formulas, not by simulation. '
+         'Known finding: split duplicates the minor-loss coefficient.',
+    ref='DESIGN.md section 4, C19')
+
 NOT_APPLICABLE = {
     'C03': 'compares the numerical output of the closed EPANET shared library with a compiled Newton/SuperLU iteration; neither can be executed '
            'symbolically with the tools on this image and a contract standing in for EPANET would be the property itself (DESIGN.md section 5)',
